@@ -67,7 +67,7 @@ pub struct Case {
     pub lead: u8,
 }
 
-pub const CONSUMERS: [&str; 9] = [
+pub const CONSUMERS: [&str; 10] = [
     "read_to_end",
     "read(1)",
     "read(15)",
@@ -77,6 +77,7 @@ pub const CONSUMERS: [&str; 9] = [
     "read(80)",
     "read(8192)",
     "fill_buf/consume(half)",
+    "read(0) before every read(64)",
 ];
 
 fn key_for(c: &Container) -> Vec<u8> {
@@ -156,7 +157,7 @@ struct Read1 {
 
 fn drive<R: BufRead>(r: &mut R, consumer: u8) -> Read1 {
     let mut released = Vec::new();
-    let sizes = [0usize, 1, 15, 16, 17, 64, 80, 8192];
+    let sizes = [0usize, 1, 15, 16, 17, 64, 80, 8192, 0, 64];
     match consumer {
         0 => {
             let e = r.read_to_end(&mut released).err().map(|e| e.to_string());
@@ -183,6 +184,12 @@ fn drive<R: BufRead>(r: &mut R, consumer: u8) -> Read1 {
         c => {
             let mut buf = vec![0u8; sizes[c as usize]];
             loop {
+                if c == 9 {
+                    // a read into an empty buffer: answers 0, is not the end, changes nothing
+                    if let Err(e) = r.read(&mut []) {
+                        return Read1 { released, err: Some(e.to_string()) };
+                    }
+                }
                 match r.read(&mut buf) {
                     Ok(0) => return Read1 { released, err: None },
                     Ok(k) => released.extend_from_slice(&buf[..k]),
@@ -774,7 +781,7 @@ pub fn check(ctx: &Ctx) {
                         if quick {
                             vec![0, 1, 3, 8]
                         } else {
-                            vec![0, 1, 2, 3, 4, 5, 6, 7, 8]
+                            vec![0, 1, 2, 3, 4, 5, 6, 7, 8, 9]
                         }
                     }
                     _ => (0..CONSUMERS.len() as u8).collect(),
@@ -813,7 +820,7 @@ pub fn check(ctx: &Ctx) {
     ctx.run_space(
         "tampered_containers",
         true,
-        "authentic containers (library-made and model-made; SEIPDv2 cipher x AEAD x chunk 64B(/128B) x plaintext lengths around 0,1,2(,3,4) chunks, plus 4 KiB (512 B, 64 KiB) chunk sizes with short plaintexts; SEIPDv1 ciphers x lengths x CheckFirst/Streaming; SEIPDv2 containers of 256..515 chunks and SEIPDv1 streaming-mode containers whose length is 8170k-1, 8170k, 8170k+1 (the stream ending exactly with a refill of the 8 KiB buffer; thorough every length 8160..8180) with flips in the first / middle / last 24 octets, chunk exchanges / repeats at distances 1, 255, 256, 257, 512, and appended octets) x deviation family {every single-bit flip of the whole body, every truncation length, 1..17 appended octets, header octets x all 256 values + salt octets, all chunk sequences of length <= n+2 over own chunks/final tag + first chunk/final tag of a second message under the same session key, stream cut at every offset / trailing data; appended octets also one chunk / two chunks / one 8 KiB buffer long} x {directly, behind a Marker packet, behind a Padding packet} x consumer {read_to_end, read(1/15/16/17/64/80/8192), fill_buf+consume} x level {packet::StreamDecryptor, Message::decrypt_the_ring(session key)}; evaluations = decrypt attempts. Oracle: reading ends in an error unless the container is byte-identical to an authentic one; SEIPDv1 CheckFirst releases nothing; SEIPDv2 releases only a prefix of the true plaintext.",
+        "authentic containers (library-made and model-made; SEIPDv2 cipher x AEAD x chunk 64B(/128B) x plaintext lengths around 0,1,2(,3,4) chunks, plus 4 KiB (512 B, 64 KiB) chunk sizes with short plaintexts; SEIPDv1 ciphers x lengths x CheckFirst/Streaming; SEIPDv2 containers of 256..515 chunks and SEIPDv1 streaming-mode containers whose length is 8170k-1, 8170k, 8170k+1 (the stream ending exactly with a refill of the 8 KiB buffer; thorough every length 8160..8180) with flips in the first / middle / last 24 octets, chunk exchanges / repeats at distances 1, 255, 256, 257, 512, and appended octets) x deviation family {every single-bit flip of the whole body, every truncation length, 1..17 appended octets, header octets x all 256 values + salt octets, all chunk sequences of length <= n+2 over own chunks/final tag + first chunk/final tag of a second message under the same session key, stream cut at every offset / trailing data; appended octets also one chunk / two chunks / one 8 KiB buffer long} x {directly, behind a Marker packet, behind a Padding packet} x consumer {read_to_end, read(1/15/16/17/64/80/8192), fill_buf+consume, read(64) with a read into an empty buffer before every call} x level {packet::StreamDecryptor, Message::decrypt_the_ring(session key)}; evaluations = decrypt attempts. Oracle: reading ends in an error unless the container is byte-identical to an authentic one; SEIPDv1 CheckFirst releases nothing; SEIPDv2 releases only a prefix of the true plaintext.",
         cases.into_par_iter(),
         run,
     );
